@@ -37,6 +37,13 @@ class GeomTok(Ext):
     def sym_round(self, it, nd):
         return GeomTok("round", self, nd)
 
+    def sym_getattr(self, it, attr):
+        if attr == "d":
+            # the printed path data of a command sequence: an opaque string that is the same for the same geometry
+            from sa.sym import SymStr
+            return SymStr(f"d<{self!r}>")
+        raise Undecided(f"attribute {attr} of GeomTok")
+
     def __repr__(self):
         return "G" + repr(self.term)
 
@@ -278,6 +285,9 @@ def install_machine(it: Interp, trace: Optional[Trace] = None, area="symbolic", 
         if isinstance(src, GeomTok) and src.term[0] == "path" and all(c in ("M", "m") for c, _ in getattr(src, "cmds", [("?", ())])):
             return 0  # a path that only moves the pen encloses nothing
         if callable(area):
+            import inspect
+            if len(inspect.signature(area).parameters) >= 2:
+                return area(a[0], k.get("fill_rule", a[1] if len(a) > 1 else "nonzero"))
             return area(a[0])
         if area == "symbolic":
             return RF.sym(f"area_{abs(hash(repr(a[0]))) % 9973}")
